@@ -1427,9 +1427,9 @@ VARIANTS = [
     {
         "name": "try moved outside the for in _callback_listeners",
         "file": _AF,
-        "old": "        for listener in self.listeners:\n            try:\n                logger.debug(\"callback ev:%s\", event)\n                listener(event)\n"
+        "old": "        for listener in list(self.listeners):\n            try:\n                logger.debug(\"callback ev:%s\", event)\n                listener(event)\n"
         "            except Exception:\n                logger.exception(\"Unhandled error when processing event\")\n",
-        "new": "        try:\n            for listener in self.listeners:\n                logger.debug(\"callback ev:%s\", event)\n                listener(event)\n"
+        "new": "        try:\n            for listener in list(self.listeners):\n                logger.debug(\"callback ev:%s\", event)\n                listener(event)\n"
         "        except Exception:\n            logger.exception(\"Unhandled error when processing event\")\n",
         "expect": "C12.X1",
     },
